@@ -160,6 +160,7 @@ type Sim struct {
 
 	TxHooks bool // call Before/AfterTx hooks
 	Phase   func(p string) // optional: told which ABCI call is about to run (begin, deliver, end, commit, idle)
+	restartNext bool
 }
 
 func (s *Sim) phase(p string) {
@@ -197,8 +198,16 @@ func NewSim(prop string, seed int64, idx int, gen *types.AppState, w *World, opt
 		s.Next[a.Address] = a.Nonce + 1
 	}
 	if !s.NoExport {
-		e := s.N.App.CurrentState().Export()
-		s.Post = &e
+		// exports come from a fresh state object built from disk: the node itself never exports its live state, and
+		// Candidates.Export() reloads stakes from the committed tree into the live objects (after InitChain that would
+		// undo the still uncommitted second stake recalculation of updateValidators)
+		if e, err := s.N.DiskExport(); err == nil {
+			s.Post = e
+		} else {
+			s.Report(Violation{Property: "C07", Rule: "panic", Site: "Export:genesis", Detail: err.Error(), Height: w.InitialHeight - 1, TxIndex: -1})
+			s.Dead = true
+			return s
+		}
 	}
 	for _, m := range mons {
 		m.Init(s)
@@ -235,8 +244,11 @@ func (s *Sim) applyUpdates(h int64, ups []abci.ValidatorUpdate) {
 	}
 	// updates of EndBlock(h) take effect at h+2
 	base := s.ValSetAt(h + 2).clone()
-	if _, ok := s.valsets[h+1]; !ok {
-		s.valsets[h+1] = s.ValSetAt(h + 1)
+	// pin the sets of the heights still needed (votes of block h+1 come from the set of h) before pruning
+	for _, k := range []int64{h - 1, h, h + 1} {
+		if _, ok := s.valsets[k]; !ok {
+			s.valsets[k] = s.ValSetAt(k)
+		}
 	}
 	for _, u := range ups {
 		var pk types.Pubkey
@@ -249,7 +261,7 @@ func (s *Sim) applyUpdates(h int64, ups []abci.ValidatorUpdate) {
 	}
 	s.valsets[h+2] = base
 	for k := range s.valsets {
-		if k < h-3 {
+		if k < h-1 {
 			delete(s.valsets, k)
 		}
 	}
@@ -288,7 +300,8 @@ func (s *Sim) RunBlock(req *BlockReq, metas []TxMeta, src TxSource) *BlockRes {
 		}
 	}
 	s.CurReq = req
-	s.Hist.Blocks = append(s.Hist.Blocks, HBlock{Height: req.Height, TimeNs: req.Time.UnixNano()})
+	s.Hist.Blocks = append(s.Hist.Blocks, HBlock{Height: req.Height, TimeNs: req.Time.UnixNano(), Restart: s.restartNext})
+	s.restartNext = false
 	hb := &s.Hist.Blocks[len(s.Hist.Blocks)-1]
 	for _, v := range req.Votes {
 		hb.Votes = append(hb.Votes, HVote{Addr: hex.EncodeToString(v.Addr[:]), Power: v.Power, Signed: v.Signed})
@@ -398,27 +411,36 @@ func (s *Sim) RunBlock(req *BlockReq, metas []TxMeta, src TxSource) *BlockRes {
 		return res
 	}
 	s.Pre = s.Post
+	s.PostDisk = nil
 	if !s.NoExport {
-		var e types.AppState
-		if pi := s.N.guard("Export", func() { e = s.N.App.CurrentState().Export() }); pi != nil {
+		e, err := s.N.DiskExport()
+		if err != nil {
 			s.Dead = true
-			s.Report(Violation{Property: "C07", Rule: "panic", Site: "Export:" + pi.Site, Detail: firstLine(pi.Value), Height: req.Height, TxIndex: -1})
+			s.Report(Violation{Property: "C07", Rule: "panic", Site: "Export:disk", Detail: firstLine(err.Error()), Height: req.Height, TxIndex: -1})
 			return res
 		}
-		s.Post = &e
-	}
-	s.PostDisk = nil
-	if s.DiskEvery > 0 && req.Height%int64(s.DiskEvery) == 0 {
-		if e, err := s.N.DiskExport(); err == nil {
-			s.PostDisk = e
-		} else {
-			s.Report(Violation{Property: "C09", Rule: "disk-export-failed", Site: "DiskExport", Detail: err.Error(), Height: req.Height, TxIndex: -1})
-		}
+		s.Post = e
+		s.PostDisk = e
 	}
 	for _, m := range s.Mons {
 		m.AfterBlock(s, req, res)
 	}
 	return res
+}
+
+// Restart replaces the node by a new application instance over the same (memdb) stores, as a process restart would.
+// The next block of the recorded history is marked so that replays restart at the same point.
+func (s *Sim) Restart() {
+	if s.Dead || s.Stopped || s.N.Opts.Dir != "" {
+		return
+	}
+	if pi := s.N.guard("Restart", func() { s.N = s.N.RebootSame() }); pi != nil {
+		s.Dead = true
+		s.Report(Violation{Property: "C09", Rule: "restart-panic", Site: pi.Site, Detail: firstLine(pi.Value), Height: s.H, TxIndex: -1})
+		return
+	}
+	s.restartNext = true
+	s.Stats["restarts"]++
 }
 
 // PanicObserver is implemented by monitors that want to attribute panics.
